@@ -468,6 +468,13 @@ class Bench:
                 return Registers(d["family"], d["feature"], base_key=bk, revision=d["revision"], base_endianness=_E(self.endian))
             regs = FuseRegisters("<synthetic>", base_endianness=_E(self.endian)) if self.fuse else \
                 Registers("<synthetic>", "x", base_endianness=_E(self.endian))
+            if d.get("via") == "add_register":
+                # the public way to the same object: one Register per specification entry, handed to add_register()
+                for g in json.loads(json.dumps(self.spec)).get("groups", []):
+                    for r in g.get("registers", []):
+                        regs.add_register(regs.register_class.create_from_spec(r))
+                self.ctx.count("built_through_add_register")
+                return regs
             regs._load_from_spec(json.loads(json.dumps(self.spec)), json.loads(json.dumps(self.grouped)))
             return regs
 
@@ -1698,8 +1705,10 @@ def run_case(case, ctx):
             fuse = rng.random() < 0.25
             spec, grouped, feats = gen_synthetic(rng, fuse)
             endian = core.pick(rng, ["big", "little"])
-            run_random(ctx, {"kind": "synthetic", "spec": spec, "grouped": grouped, "fuse": fuse, "endian": endian},
-                       ["synthetic", sorted(feats), endian, "FuseRegisters" if fuse else "Registers"])
+            # a file without groups is, every third time, put together register by register through add_register()
+            via = "add_register" if not grouped and rng.random() < 0.34 else "spec"
+            run_random(ctx, {"kind": "synthetic", "spec": spec, "grouped": grouped, "fuse": fuse, "endian": endian, "via": via},
+                       ["synthetic", sorted(feats), endian, "FuseRegisters" if fuse else "Registers", via])
     else:
         raise core.Inconclusive(f"unknown case kind {kind}")
     ctx.note("max_steps_in_one_call", _Budget.max_seen - _Budget.max_seen % 1000)
